@@ -1515,7 +1515,7 @@ pub fn run(ctx: &Ctx) -> Outcome {
         let before = chains_run.load(Ordering::Relaxed);
         par_for(frontier.len(), |i| {
             // this check may use 1.3 x the common budget (52 s in the quick tier): level 2 needs about 40 s on 16 idle cores
-            if ctx.elapsed() > ctx.tier.budget_s() * 1.3 {
+            if ctx.elapsed() > if ctx.tier.is_quick() { ctx.hard_cap_s() } else { ctx.tier.budget_s() * 1.3 } {
                 cut.store(true, Ordering::Relaxed);
                 return;
             }
